@@ -22,7 +22,8 @@ META = {
     'evaluation_counters': ['judged_upset', 'judged_downset', 'judged_upset_union', 'judged_downset_union'],
     'required_counters': ['judged_upset', 'judged_downset', 'judged_upset_union', 'judged_downset_union',
                           'judged_empty_seeds', 'judged_abandoned', 'results_with_multipath_member',
-                          'seeds_with_repeats', 'seeds_with_comparable_members', 'interleaved_traversals'],
+                          'seeds_with_repeats', 'seeds_with_comparable_members', 'interleaved_traversals',
+                          'judged_orphaned_concepts'],
     'shards': {'quick': 16, 'thorough': 16},
     'exhaustive': {'quick': 'all tables <= 3x3 x all concepts, all seed pairs',
                    'thorough': 'all tables <= 3x3, 3x4, 4x3, 4x4 x all concepts, all seed pairs'},
@@ -241,6 +242,9 @@ def run_biglat(concepts, case, spec):
             judge(kind, up, seeds, r)
 
 
+ORPHANS = []
+
+
 def run_case(concepts, case, spec):
     if case.get('fam', '').startswith('BIGLAT'):
         return run_biglat(concepts, case, spec)
@@ -308,6 +312,35 @@ def run_case(concepts, case, spec):
         for _ in range(rng.randint(0, 3)):
             next(it, None)
         del it
+    # concepts that outlive every other reference to their lattice and context
+    if sl.n <= 60 and len(ORPHANS) < 8:
+        c2 = common.build_or_skip(concepts, case)
+        l2 = common.get_lattice(c2) if c2 is not None else RAISED
+        if l2 is not RAISED:
+            ms = list(l2)
+            if len(ms) == sl.n:
+                d = sl.dindex()
+                exp = []
+                for _ in range(4):
+                    k = rng.randrange(len(ms))
+                    exp.append((k, sorted(bits(sl.up(k))), sorted(bits(sl.down(k)), key=d.__getitem__)))
+                ORPHANS.append((ms, exp))
+        del c2, l2
+    elif len(ORPHANS) >= 8:
+        import gc
+        common.drop_views()
+        gc.collect()
+        for ms, exp in ORPHANS:
+            pos = {id(c): i for i, c in enumerate(ms)}
+            for k, up, down in exp:
+                gu, gd = call(lambda: list(ms[k].upset())), call(lambda: list(ms[k].downset()))
+                COL.count('judged_orphaned_concepts')
+                if gu is RAISED or gd is RAISED:
+                    COL.violation('upset', 'upset:raised-on-concepts-that-outlived-their-lattice', 'members', 'exception')
+                elif [pos.get(id(c)) for c in gu] != up or [pos.get(id(c)) for c in gd] != down:
+                    COL.violation('upset', 'upset:wrong-on-concepts-that-outlived-their-lattice', [up, down],
+                                  [[pos.get(id(c)) for c in gu], [pos.get(id(c)) for c in gd]])
+        ORPHANS.clear()
     old = POOL.older(rng)
     if old is not None:
         olat, omem = old
